@@ -288,6 +288,16 @@ func runFuzz(c Case, tr *Tracer) {
 		call = auxFns[fn]
 	}
 	arg := append([]byte{}, in...)
+	if caseInt(c, "t")%2 == 0 {
+		// the input is the front of a larger receive buffer: what lies behind it (the tail of an earlier, longer
+		// packet) is not input
+		buf := make([]byte, len(in)+300)
+		copy(buf, in)
+		for i := len(in); i < len(buf); i++ {
+			buf[i] = []byte{'A', 0, 0, 1}[i%4]
+		}
+		arg = buf[:len(in)]
+	}
 	var isErr bool
 	var m0, m1 runtime.MemStats
 	runtime.ReadMemStats(&m0)
@@ -309,7 +319,41 @@ func runFuzz(c Case, tr *Tracer) {
 		alloc = 2000000000 // TLC integers are 32-bit
 	}
 	tr.emit(Ev{"ev": "Fuzz", "type": tn, "in": B(in), "outcome": outcome, "alloc": alloc, "site": site})
+	// the same octets into an object of the type that has been decoded into before (a receive loop that keeps one PDU per type)
+	if ctor, ok := ctors[fn]; ok && outcome != "skipped" && outcome != "timeout" {
+		u := usedFuzz[fn]
+		if u == nil {
+			u = ctor()
+			usedFuzz[fn] = u
+		}
+		arg2 := append([]byte{}, in...)
+		var isErr2 bool
+		runtime.ReadMemStats(&m0)
+		pan2, hung2 := guardT(func() { isErr2 = u.IDecode(arg2) != nil }, site+"/used")
+		runtime.ReadMemStats(&m1)
+		o2 := "ok"
+		switch {
+		case hung2 && skipped:
+			o2 = "skipped"
+		case hung2:
+			o2 = "timeout"
+		case pan2:
+			o2 = "panic"
+		case isErr2:
+			o2 = "err"
+		}
+		if pan2 || hung2 {
+			delete(usedFuzz, fn) // whatever state it was left in: start over with a new object
+		}
+		alloc2 := int64(m1.TotalAlloc - m0.TotalAlloc)
+		if alloc2 > 2000000000 {
+			alloc2 = 2000000000
+		}
+		tr.emit(Ev{"ev": "Fuzz", "type": tn, "in": B(in), "outcome": o2, "alloc": alloc2, "site": site + "/used"})
+	}
 }
+
+var usedFuzz = map[string]codecPDU{}
 
 var _ = rand.Int
 
